@@ -111,13 +111,30 @@ impl Runner for SubprocessRunner {
         }
 
         // wait for the process to finish and handle the result
+        let started = std::time::Instant::now();
         let (stdout, stderr, exit_code) = match comm.read() {
             // successs! we are happy!
-            Ok((stdout, stderr)) => (
-                stdout,
-                stderr,
-                process.wait().context("capture process exit")?.into(),
-            ),
+            Ok((stdout, stderr)) => {
+                // the streams are closed, which does not mean that the process
+                // has ended: the time limit applies to waiting for it, too
+                let exit_code = match testcase.config.timeout {
+                    Some(timeout) => {
+                        match process
+                            .wait_timeout(timeout.saturating_sub(started.elapsed()))
+                            .context("capture process exit")?
+                        {
+                            Some(status) => status.into(),
+                            None => {
+                                let _ = process.kill();
+                                let _ = process.wait();
+                                OutputExitStatus::Timeout(timeout)
+                            }
+                        }
+                    }
+                    None => process.wait().context("capture process exit")?.into(),
+                };
+                (stdout, stderr, exit_code)
+            }
 
             // bummer, a sad thing happened
             Err(err) => {
